@@ -186,7 +186,7 @@ CLAIMED.update({
              "a concurrent history over invocation/response stamps, and the soundness of the history checker - it never "
              "rejects a linearizable history, so each rejection is a genuine violation; and the mechanism: operations that take "
              "effect atomically at one point inside their interval, in an order that follows the specification, give a "
-             "linearizable history. Checked on the real cache: per-thread programs (2..4 threads; insert, remove, get, contains, "
+             "linearizable history; the sequential shard model, seen through any key, follows the specification. Checked on the real cache: per-thread programs (2..4 threads; insert, remove, get, contains, "
              "touch, get_or_fetch, clear, resize, evict_all) released by a barrier with randomised yields/spins, all five "
              "algorithms, 1..4 shards, keys sharing and spanning shards, zero / mixed weights, a rejecting filter; every "
              "round's history is projected on each key and given to the extracted checker; entry handles are re-read at the end "
